@@ -101,6 +101,8 @@ def norm_cell(v):
         f = float(v)
         if f != f:
             return "nan"
+        if f in (float("inf"), float("-inf")):
+            return "inf" if f > 0 else "-inf"
         r = round(f, 9)
         return int(r) if r == int(r) and abs(r) < 1e15 else r
     if isinstance(v, (datetime.datetime, datetime.date, datetime.time)):
